@@ -592,6 +592,14 @@ def preprocess_observation(
         return preprocessed_obs
 
     elif isinstance(observation_space, spaces.Tuple):
+        if isinstance(observation, TensorDict):
+            # Tuple observations stored through Transition / ReplayBuffer come back as a
+            # TensorDict with the keys tuple_obs_<i> (see components.data.to_tensordict)
+            observation = tuple(
+                observation[f"tuple_obs_{i}"]
+                for i in range(len(observation_space.spaces))
+            )
+
         assert isinstance(
             observation, tuple
         ), f"Expected tuple, got {type(observation)}"
